@@ -118,7 +118,7 @@ P = {
         "C14_stored_text_positions via from_sparse_spec. FTAB/FTAB_ARGC are regenerated from src/utils.rs on every run "
         "(tools/gen_tables.py) and proved equal to a frozen reference copy (regression pin). Totality: "
         "C14_no_panic_parse_formula_xls/_xlsb (every byte string), C14_no_panic_xlsb_read_names / _xls_read_names, C14_no_panic_a1. "
-        "C14_defined_name_text_is_render_xls (every Lbl formula that encodes a well-formed AST is reported as its rendering). C14_shared_formula_members_xls / C14_array_formula_members_xls (FormulaSheet.v: every member of a shared / array group reports the group formula translated to its own position, PtgRefN / PtgAreaN offsets signed and wrapping as the format defines), C14_builtin_names_table (_xlnm.* names), C14_choose_correct_*, C14_user_function_correct_*, C14_sheet_name_quoting. One known class K_PTGEXP restricted to xlsb (members of xlsb shared / array formulas read as \"\") with refutation. Tie: hooks "
+        "C14_defined_name_text_is_render_xls (every Lbl formula that encodes a well-formed AST is reported as its rendering). C14_shared_formula_members_xls / C14_array_formula_members_xls and C14_sheet_formulas_xlsb / C14_shared_formula_members_xlsb / C14_array_formula_members_xlsb / C14_worksheet_formula_members_xlsb (FormulaSheet.v: every member of a shared / array group of an xls or xlsb sheet reports the group formula translated to its own position, PtgRefN / PtgAreaN offsets signed and wrapping as the format defines: 65536 x 256 for xls, 1048576 x 16384 for xlsb; xlsb: model of next_formula with its one-record look-ahead), C14_builtin_names_table (_xlnm.* names), C14_choose_correct_*, C14_user_function_correct_*, C14_sheet_name_quoting. No known class is left (K_PTGEXP repaired in both binary readers). Tie: hooks "
         "push_column / both parse_formula / A1 helpers (exhaustive column sweep, random ASTs, malformed rgce with outcome "
         "prediction) and generated .xlsb, .xls, .xlsx and .ods files through worksheet_formula on every sheet and defined_names.",
    note=TB + " f64 display is a Section variable; <> OutOfFuel for the two decoders on arbitrary input is not proved. Table translator: tools/gen_tables.py (fail-closed regex extraction).",
@@ -374,7 +374,7 @@ STALE = set()
 STALE_REASON = ("temporarily not claimed: a shared model file this slice imports (Col26.v / Range.v) was just re-synchronised with the "
                 "hardened code and the slice's bridge lemmas are being re-proved against it; until that is merged the slice's proof "
                 "files do not all compile")
-HOOK_COMMITS = ["6e4993e", "bb5031b", "a67f951", "bdf3a94", "d6d3370", "13b2ff0"]
+HOOK_COMMITS = ["6e4993e", "bb5031b", "a67f951", "bdf3a94", "d6d3370", "13b2ff0", "132a2f1"]
 if __name__ == "__main__":
     main()
     # the source baseline (tools/source_baseline.json) belongs to the same /repo HEAD as the manifest
